@@ -14,9 +14,17 @@ def run_disasm(rep, prop, seed, n, mask_panic_only=False):
     names = {k: v["name"] for k, v in json.load(open(GRAMMAR))["insts"].items()}
     counted = 0
     for idx, code in bad:
-        if mask_panic_only and code != 5:
+        if mask_panic_only and code not in (4, 5):
             continue
         e = events[idx - 1]
+        if code == 4:
+            if mask_panic_only:
+                rep.violation("load:panic:%s" % e["panic"][1][:50], {"component": "loader", "input": {"words": e["words"]},
+                              "observed": {"panic": e["panic"]}, "expected": "Ok or Err", "spec_ref": "Loader!Load is total"})
+                counted += 1
+            else:
+                log("note: the loader panicked on a generated module (C04's business): %s" % e["panic"][1][:80])
+            continue
         # first line that does not read back / whose instruction differs
         culprit = ""
         if e["st"] == "ok":
